@@ -26,7 +26,7 @@ META = {
     "note": "Trusted: TLC, C11Mem simplifications, drop-in atomics, SC replay on x86, preemption bound. The robust set has "
             "its own implementation-shaped model RuisImpl.tla (acquire / release / lock-if-last; recover is covered at API "
             "level only), the pool allocator is covered at API level (it is built on UniqueIndexSet = UisImpl.tla). ABA tag "
-            "domain is 4 in the model (2^16 in the code).",
+            "domain of the model is as large as the number of tag changes of the program (no wrap-around; 2^16 in the code).",
     "design_ref": "DESIGN.md 5 C09",
     "replay": True,
 }
@@ -135,7 +135,7 @@ def run(ctx):
     vp.cargo_build(["drv-lockfree"])
     q = ctx.quick
     ctx.assumptions += ["C11Mem simplifications (see spec/lib/C11Mem.tla)", "preemption-bounded schedule enumeration",
-                        "ABA tag domain 4 in the model"]
+                        "ABA tag domain of the model = number of tag changes of the program + 1 (no wrap-around; 2^16 in the code)"]
     A, R, RL = "acq", "rel0", "rell0"
     O, IL = "obs", "il"     # observers: borrowed_indices() (on the robust set it WRITES the generation counter), is_locked()
     progs = {
@@ -252,7 +252,10 @@ def run(ctx):
         for n, (cap, prog) in enumerate(mcs):
             name = f"MC_{n}"
             inc = (min(tab_final.get("inc_a", 1), 3), min(tab_final.get("inc_r", 1), 3))
-            d = gen_module(ctx, name, "UisImpl", cap, 4, prog, tab_final, False, inc=inc)
+            # the tag domain of the model must not wrap within one program (the code has 2^16 tags): every operation
+            # that succeeds changes the tag once (failed CAS attempts do not)
+            abamod = sum(len(t) for t in prog) * max(inc + (1,)) + 1
+            d = gen_module(ctx, name, "UisImpl", cap, abamod, prog, tab_final, False, inc=inc)
             res = vp.tlc(d, name, workers=8, timeout=900 if q else 2400, libs=["lockfree"])
             vp.record_tlc(ctx, f"UisImpl[cap={cap} prog={prog} ord=extracted]", res)
             if res.timed_out:
